@@ -191,6 +191,15 @@ def opPfx (a : Acc) (ln : Nat) (l : Line) : Acc := Id.run do
     let n := out.size
     if n < 4 || out[n-4]! != 0 || out[n-3]! != 0 || out[n-2]! != 255 || out[n-1]! != 255 then
       a := a.fail ln l "marker" "sync/full flush output does not end with 00 00 FF FF"
+    -- the conclusion of `C12.flush_point_prefix_decodes_to_all_input(_zlib)` on this prefix, through the
+    -- decoder model: one call on the prefix alone writes all input so far, consumes every byte, asks for more
+    if inp.size ≤ 30000 then
+      let flags := Model.Core.fNonWrapping + Model.Core.fHasMoreInput + (if zlib then Model.Core.fParseZlib else 0)
+      let res := Model.Core.decompress {} out (Array.replicate (inp.size + 1) 0) 0 (inp.size + 1) flags
+      a := a.bump "pfx_model"
+      if res.status != Model.Core.stNeedsMoreInput || res.consumed != out.size || res.written != inp.size
+          || !sameBytes (res.out.extract 0 res.written) inp then
+        a := a.fail ln l "prefix_model" s!"decoder model on the flush-point prefix: status {res.status}, consumed {res.consumed} of {out.size}, written {res.written} of {inp.size}"
   return a
 
 /-- `TAIL`: the part of a finished stream after a full flush decodes on its own. -/
